@@ -375,6 +375,10 @@ class Interp:
                 r = a is b
             elif isinstance(a, bool) and isinstance(b, bool):
                 r = a == b
+            elif isinstance(a, FuncRef) and isinstance(b, FuncRef):
+                r = (a.kind, a.name) == (b.kind, b.name)          # named singletons / functions / classes (NotImplemented, ...) (additive, C41)
+            elif isinstance(a, (FuncRef, Model)) or isinstance(b, (FuncRef, Model)):
+                r = a is b
             else:
                 raise Unsupp("`is` on non-None values")
             return r if isinstance(op, ast.Is) else not r
@@ -897,7 +901,7 @@ class Interp:
         it = self.eval(g.iter, env)
         if isinstance(it, Rec) and "__iter__" in it.cls.methods and not it.cls.is_namedtuple:
             it = self.call_method(it, "__iter__", [], {})
-        if isinstance(it, tuple) and it and it[0] == "symzip":
+        if isinstance(it, tuple) and it and isinstance(it[0], str) and it[0] == "symzip":
             # zip of symbolic-length sequences (strict): equal lengths or ValueError; element i is the tuple of the i-th elements
             seqs, strict = it[1], it[2]
             if not strict:
@@ -1781,7 +1785,11 @@ class Interp:
 
     def s_FunctionDef(self, s, env):
         """nested function definition (additive): binds the name to a closure over the current environment"""
-        if s.decorator_list:
+        def _is_wraps(d):
+            f = d.func if isinstance(d, ast.Call) else d
+            return (isinstance(f, ast.Name) and f.id == "wraps") or (isinstance(f, ast.Attribute) and f.attr == "wraps")
+        if s.decorator_list and not all(_is_wraps(d) for d in s.decorator_list):
+            # @functools.wraps only copies metadata (additive, C41): the decorated nested function behaves as the plain one
             raise Unsupp(f"decorated nested function {s.name} at line {s.lineno}")
         env[s.name] = DefClosure(s, env, self)
 
@@ -1964,7 +1972,7 @@ class Interp:
         it = self.eval(s.iter, env)
         if isinstance(it, Rec) and "__iter__" in it.cls.methods and not it.cls.is_namedtuple:
             it = self.call_method(it, "__iter__", [], {})
-        if isinstance(it, SeqV) or (isinstance(it, tuple) and it and it[0] in ("symrange", "symenum")):
+        if isinstance(it, SeqV) or (isinstance(it, tuple) and it and isinstance(it[0], str) and it[0] in ("symrange", "symenum")):
             return self.sym_for(s, env, it, ordinal)
         items = self.iter_concrete(it)
         broke = False
@@ -2014,7 +2022,7 @@ class Interp:
             raise Unsupp(f"for loop over a symbolic-length iterable at line {s.lineno} needs a loop contract")
         ivar = ivar or f"_i{ordinal}"
         enum_start = None
-        if isinstance(it, tuple) and it and it[0] == "symenum":
+        if isinstance(it, tuple) and it and isinstance(it[0], str) and it[0] == "symenum":
             enum_start, it = it[2], it[1]
         if isinstance(it, SeqV):
             n = s_len(it.term)
